@@ -43,7 +43,7 @@ def structural(model):
     return cv, out
 
 
-def r07_1(run, model):
+def r07_1(run, model, components=True):
     run.rule("R07.1", "mono::unify (template vs concrete type) has a diagonal arm for every type former a monomorphic type can contain: "
                       "all Ty variants except TVar (inference only) and TParam (template side, handled first)")
     cv, trs = structural(model)
@@ -66,6 +66,8 @@ def r07_1(run, model):
                 rec = any(True for _ in S.calls(arm["body"], "unify"))
                 run.ob("R07.1", f"mono::unify|{v} recurses into children", rec, site(t.fn.file, arm["sp"]), f"arm for {v} {'calls' if rec else 'does not call'} unify on its components",
                        witness=f"T inside {v} is never bound: the instance keeps a type parameter")
+                if not components:
+                    continue  # (host property only needs the diagonal: a missing arm is a panic, an un-unified component is not)
                 # every type-carrying binding of the arm's pattern is an operand of unify (directly, or as the iterator of a loop / zip
                 # whose elements are): a component that is only measured (`.len()`) is never unified
                 binds = set()
